@@ -100,6 +100,8 @@ package rlwe
 //@   draw XE
 //@   case len(ct.Value) == 2 ; alias c1 = ct.Value[1]
 //@   case len(ct.Value) == 1
+// a receiver of degree 2 (finding F85: its second component stayed in the NTT domain under metadata that say otherwise)
+//@   case len(ct.Value) == 3 ; alias c1 = ct.Value[1]
 //@   let c0 = ct.Value[0]
 //@   ensures val(c0) + val(c1) * val(sk.Value.Q) == fresh(XE, old(draws(XE)))
 //@   ensures draws(XE) == old(draws(XE)) + 1 && draws(UNIFORM) == old(draws(UNIFORM)) && isnil(err)
@@ -107,14 +109,15 @@ package rlwe
 // metadata say so (finding F47: the error was never put in Montgomery form on this path)
 //@   ensures mexp(c0) == ite(ct.MetaData.CiphertextMetaData.IsMontgomery, 1, 0) && mexp(c1) == ite(ct.MetaData.CiphertextMetaData.IsMontgomery, 1, 0) && uni(c1)
 //@   ensures indom(c0, ct.IsNTT)
-//@   ensures implies(len(ct.Value) == 2, indom(c1, ct.IsNTT))
+//@   ensures implies(len(ct.Value) >= 2, indom(c1, ct.IsNTT))
 
 //@ afunc Encryptor.encryptZeroSkFromC1QP
 //@   property C03
 //@   requires encinv(enc)
 //@   requires isntt(sk.Value.Q) && mexp(sk.Value.Q) == 1 && isntt(sk.Value.P) && mexp(sk.Value.P) == 1 && val(sk.Value.P) == val(sk.Value.Q)
 //@   requires isntt(c1.Q) && isntt(c1.P)
-//@   wlog mexp(c1.Q) == 1 && mexp(c1.P) == 1 given uni(c1.Q) && uni(c1.P)
+// "generated according to the given MetaData" (finding F86: this variant put the error in Montgomery form whatever the flag said)
+//@   wlog mexp(c1.Q) == ite(ct.MetaData.CiphertextMetaData.IsMontgomery, 1, 0) && mexp(c1.P) == ite(ct.MetaData.CiphertextMetaData.IsMontgomery, 1, 0) given uni(c1.Q) && uni(c1.P)
 //@   requires len(ct.Value) >= 1 && len(ct.Value[0].Q.Coeffs) >= 1
 //@   assigns c1
 //@   case len(ct.Value) == 2 ; alias c1 = ct.Value[1]
@@ -124,7 +127,7 @@ package rlwe
 //@   ensures val(c0.Q) + val(c1.Q) * val(sk.Value.Q) == fresh(XE, old(draws(XE)))
 //@   ensures implies(hasP, val(c0.P) + val(c1.P) * val(sk.Value.Q) == fresh(XE, old(draws(XE))))
 //@   ensures draws(XE) == old(draws(XE)) + 1 && draws(UNIFORM) == old(draws(UNIFORM)) && isnil(err)
-//@   ensures mexp(c0.Q) == 1 && implies(hasP, mexp(c0.P) == 1)
+//@   ensures mexp(c0.Q) == ite(ct.MetaData.CiphertextMetaData.IsMontgomery, 1, 0) && implies(hasP, mexp(c0.P) == ite(ct.MetaData.CiphertextMetaData.IsMontgomery, 1, 0))
 //@   ensures indom(c0.Q, ct.IsNTT) && implies(hasP, indom(c0.P, ct.IsNTT))
 //@   ensures implies(len(ct.Value) == 2, indom(c1.Q, ct.IsNTT))
 
